@@ -685,7 +685,8 @@ def guards(inst, st):
            and all(dt(o.duration) and dt(o.frequency) for m in inst.machines for o in m.outages)
            and all(dt(v) for v in inst.logistics.travel_times.values())
            and all(dt(o.duration) and dt(o.frequency) for t in inst.transports for o in t.outages))
-    return wf, shape, cons, cap, rest, placed, nonneg, det
+    noout = all(len(m.outages) == 0 for m in inst.machines) and all(len(t.outages) == 0 for t in inst.transports)
+    return wf, shape, cons, cap, rest, placed, nonneg, det, noout
 
 
 def conflict_free(offers, rnd, p=0.7):
